@@ -252,27 +252,27 @@ type histScopeSide struct {
 }
 
 func subscribeAll(tr *tracer, errorable bool, prov *frugal.FScopeProvider, user string, mw func() []frugal.ServiceMiddleware) (subscribe func() error) {
-	onDeliver := func(op string, v interface{}) error {
+	onDeliver := func(op string, ctx frugal.FContext, v interface{}) error {
 		a := []interface{}{v}
-		tr.add(event{"callback", "call", "subscribe" + op, renderList(a)})
+		tr.add(event{"callback", "call", "subscribe" + op, withCtx(renderList(a), ctxDesc(ctx))})
 		return resErr(subscriberFn(op, errorable, a))
 	}
 	if errorable {
 		es := mainsvc.NewEventsErrorableSubscriber(prov, mw()...)
 		ps := mainsvc.NewPlainErrorableSubscriber(prov, mw()...)
 		return func() error {
-			_, e1 := es.SubscribeSentErrorable(user, func(ctx frugal.FContext, p *mainsvc.Payload) error { return onDeliver("Sent", p) })
-			_, e2 := es.SubscribeNumErrorable(user, func(ctx frugal.FContext, t *base.Thing) error { return onDeliver("Num", t) })
-			_, e3 := ps.SubscribePingErrorable(func(ctx frugal.FContext, t *base.Thing) error { return onDeliver("Ping", t) })
+			_, e1 := es.SubscribeSentErrorable(user, func(ctx frugal.FContext, p *mainsvc.Payload) error { return onDeliver("Sent", ctx, p) })
+			_, e2 := es.SubscribeNumErrorable(user, func(ctx frugal.FContext, t *base.Thing) error { return onDeliver("Num", ctx, t) })
+			_, e3 := ps.SubscribePingErrorable(func(ctx frugal.FContext, t *base.Thing) error { return onDeliver("Ping", ctx, t) })
 			return firstErr(e1, e2, e3)
 		}
 	}
 	es := mainsvc.NewEventsSubscriber(prov, mw()...)
 	ps := mainsvc.NewPlainSubscriber(prov, mw()...)
 	return func() error {
-		_, e1 := es.SubscribeSent(user, func(ctx frugal.FContext, p *mainsvc.Payload) { onDeliver("Sent", p) })
-		_, e2 := es.SubscribeNum(user, func(ctx frugal.FContext, t *base.Thing) { onDeliver("Num", t) })
-		_, e3 := ps.SubscribePing(func(ctx frugal.FContext, t *base.Thing) { onDeliver("Ping", t) })
+		_, e1 := es.SubscribeSent(user, func(ctx frugal.FContext, p *mainsvc.Payload) { onDeliver("Sent", ctx, p) })
+		_, e2 := es.SubscribeNum(user, func(ctx frugal.FContext, t *base.Thing) { onDeliver("Num", ctx, t) })
+		_, e3 := ps.SubscribePing(func(ctx frugal.FContext, t *base.Thing) { onDeliver("Ping", ctx, t) })
 		return firstErr(e1, e2, e3)
 	}
 }
